@@ -195,10 +195,12 @@ def roundtrip_contract(cls, vtype, scope=None, name=None, n_items=None):
             # the serialized form is JSON-native: a list of strings / the items themselves
             return out
         out.append(("deserialize(rt(serialize(v))) == v (value and type)", I.term(oc) == v.t))
-        if isinstance(sv, Sym):
+        if isinstance(sv, Sym) and vtype in ("datetime", "date"):
             out.append(("serialized form is a JSON string", vm.ty(sv.t) == vm.TAG["str"]))
+        elif isinstance(sv, Sym) and isinstance(vtype, str) and vtype in ("str", "int", "float", "bool"):
+            out.append(("serialized form is JSON-native (the value itself)", sv.t == v.t))
         return out
-    c = FunctionContract("%s:%s.deserialize" % (MOD if cls != "Parameter" else "param.parameterized", cls), PROP, setup, post,
+    c = FunctionContract("%s:%s.deserialize" % (MOD if cls not in ("Parameter", "String") else "param.parameterized", cls), PROP, setup, post,
                          configure=configure, name=name or "%s.serialize/deserialize[%s]" % (cls, vtype if isinstance(vtype, str) else "%s x%d" % (vtype[1], vtype[2])))
     c.runner = runner
     return c
@@ -219,6 +221,12 @@ def contracts():
         C.append(roundtrip_contract("Tuple", ("tuple", "any-json", n)))
     C.append(roundtrip_contract("Tuple", "None"))
     C.append(roundtrip_contract("Parameter", ("tuple", "any-json", 0), name="Parameter.serialize/deserialize[identity hooks]"))
+    # the remaining serializable types: whatever hook the type resolves to (today the identity hooks of
+    # Parameter) must give back a JSON-native scalar value unchanged
+    for cls, vt in (("String", "str"), ("Color", "str"), ("Integer", "int"), ("Number", "float"), ("Number", "int"),
+                    ("Boolean", "bool"), ("Selector", "str"), ("Selector", "int"), ("Selector", "None"),
+                    ("String", "None"), ("Integer", "None"), ("Number", "None")):
+        C.append(roundtrip_contract(cls, vt))
     return C
 
 
